@@ -4,4 +4,4 @@ Require Import ExtrOcamlBasic.
 From LLB Require Import Base.Bytes Queue.Lanes Queue.ProcStatus Queue.Env.
 Extraction "extracted/Model_queue.ml" init step accepts first_reject terminal
   status_of_wait launch_outcome raw_of_fate status_of_fate
-  build_env build_env_unrepaired sources render getenv lookup.
+  build_env build_env_v0 sources render getenv lookup.
